@@ -2203,6 +2203,10 @@ pub fn run(cx: &mut Ctx) {
         let line = sess.emit(cx);
         if o.outcome != Outcome::Ok(true) || o.resp.as_ref().map(|r| r.payload.clone()) != Some(body[16..32].to_vec()) {
             cx.oracle_fail("C20", &line, &format!("cached response did not survive {} intervening requests on other keys within the expiry time", n_other));
+            // the same observation is a follow-up block that was not served from the cache (C08) and a transfer
+            // that does not observe what it observes alone (C12)
+            cx.oracle_fail("C08", &line, &format!("after {} intervening requests on other keys the follow-up for block 1 was not served from the cache with bytes 16..32 of the body: {}", n_other, o.outcome.token()));
+            cx.oracle_fail("C12", &line, &format!("a download does not observe the block it observes alone once {} other keys have been used in between: {}", n_other, o.outcome.token()));
         }
     }
     run_slow_app(cx, &mut rng, &shapes);
